@@ -151,7 +151,8 @@ def job(j):
         hist, cause = lst[0]
         mn = shrink_hist(cfg, hist, clause)
         _, _, o2 = run_history(cfg, mn)
-        cell = f"{cfg['transport']}/ka={int(cfg['ka'])}" + ('/probe-in-cancelled-task' if cfg.get('probe_in_cancelled_task') else '')
+        cell = f"{cfg['transport']}/ka={int(cfg['ka'])}" + ('/probe-in-cancelled-task' if cfg.get('probe_in_cancelled_task') else '') + \
+            ('/same-command-object' if cfg.get('same_command') else '')
         key = f"{clause}/{cell}/after:{'+'.join(sorted(set(x.split('-after-')[0] for x in mn))) or 'nothing'}"
         if not any(c == clause for c, _ in probe_monitor(cfg, o2)):
             key = f"{clause}/{cell}/order-dependent"
@@ -344,6 +345,9 @@ def run(tier, seed, rep):
     depth = 8 if tier == 'thorough' else 4
     jobs = [(dict(transport=tr, ka=ka, T=T, R=R), depth)
             for tr in ('udp', 'tcp') for ka in (False, True) for (T, R) in grid]
+    # every request of the history and the probe execute the very same command object
+    jobs += [(dict(transport=tr, ka=ka, T=1, R=2, same_command=True), min(depth, 3))
+             for tr in ('udp', 'tcp') for ka in (False, True)]
     # the probe issued from a task that swallowed a cancellation before (Task.cancelling() > 0)
     jobs += [(dict(transport=tr, ka=ka, T=1, R=2, probe_in_cancelled_task=True), min(depth, 2))
              for tr in ('udp', 'tcp') for ka in (False, True)]
